@@ -128,10 +128,26 @@ var c07Mutations = []c07Mutation{
 		if len(txs) < 2 {
 			return false
 		}
-		i := w.rc.Intn(len(txs) - 1)
-		if txs[i].Hash() == txs[i+1].Hash() {
+		// only pairs whose order matters: two inbound ETXs (queue order) or two Quai transactions of one sender (nonce
+		// order).  Swapping two independent transactions yields another valid block, not a deviation.
+		signer := types.NewSigner(w.node.sl.Config().ChainID, w.node.loc)
+		var cands []int
+		for j := 0; j+1 < len(txs); j++ {
+			a, b := txs[j], txs[j+1]
+			if a.Type() == types.ExternalTxType && b.Type() == types.ExternalTxType && a.Hash() != b.Hash() {
+				cands = append(cands, j)
+			} else if a.Type() == types.QuaiTxType && b.Type() == types.QuaiTxType {
+				fa, e1 := types.Sender(signer, a)
+				fb, e2 := types.Sender(signer, b)
+				if e1 == nil && e2 == nil && fa.Equal(fb) {
+					cands = append(cands, j)
+				}
+			}
+		}
+		if len(cands) == 0 {
 			return false
 		}
+		i := cands[w.rc.Intn(len(cands))]
 		out := append(types.Transactions{}, txs...)
 		out[i], out[i+1] = out[i+1], out[i]
 		m.Body().SetTransactions(out)
